@@ -120,3 +120,63 @@ def check_C13(ctx):
                   "ControlPoints::add followed by the four lookups at every probe time; non-trivial = distinct (pre-state, op) "
                   "pairs whose add changes the state or is dropped as redundant; random recorded histories are validated by "
                   "Trace_ControlPoints")
+
+
+# ----------------------------------------------------------------------------
+FRAMING_INV = ["Refines", "Insensitive", "Shape", "C07Projection", "EmitCase"]
+
+
+def framing_cases(ctx, kinds, maxlen, emit=True, liveness=True):
+    cfg = dict(spec="Spec", invariants=FRAMING_INV, properties=["StepAgrees"] + (["Terminates"] if liveness else []),
+               constants=dict(LineKinds="<-" + kinds, MaxLen=str(maxlen), Emit="TRUE" if emit else "FALSE"))
+    r = tlc(ctx, "Framing", "MC_Framing_%s_%d" % (kinds, maxlen), cfg, workers=12, timeout=2400)
+    return r["lines"]
+
+
+def check_C05(ctx):
+    thorough = ctx.tier == "thorough"
+    for m in ("Framing", "Trace_Framing"):
+        sany(ctx, m)
+    # (1) exhaustive: all files up to the bound; refinement to the declarative rule,
+    #     blank/comment insensitivity, termination; one CASE line per file
+    cases = framing_cases(ctx, "SmallKinds", 4)
+    if thorough:
+        cases += framing_cases(ctx, "AllKinds", 4, liveness=False)
+        cases += framing_cases(ctx, "SmallKinds", 5, liveness=False)
+    else:
+        cases += framing_cases(ctx, "AllKinds", 3)
+    # (2) spec -> impl: every file, several spellings, four encodings, RecordingDecoder + Beatmap vs reference driver
+    summ = harness(ctx, ["framing", "replay", "--prop", "C05", "--spellings", "3" if thorough else "2"],
+                   stdin_lines=cases, name="framing-replay", timeout=3600)
+    report_mismatches(ctx, summ, "decode driver differs from the Framing specification")
+    # (3) impl -> spec: bundled and long random files
+    tcfg = dict(spec="TrSpec", invariants=["TrRefines", "Shape"], postcondition="Accepted",
+                constants=dict(LineKinds="<-SmallKinds", MaxLen="0", Emit="FALSE"))
+    nrand, maxlen = (300, 300) if thorough else (60, 150)
+    trace_step(ctx, "Trace_Framing", "Trace_Framing", tcfg,
+               ["framing", "record", "--random", str(nrand), "--maxlen", str(maxlen)],
+               "recorded driver behaviour is not a behaviour of the Framing specification", "framing-trace")
+    ctx.assumptions += ["line splitting and text decoding are C08/C10 matters; files here contain no UTF-16 unit with a 0x0A byte",
+                        "the spelling table harness/src/framing.rs (checked: classify(spell(k)) = k)"]
+    return finish(ctx, "model_checking",
+                  "TLC enumerates every file (sequence of line kinds) up to the length bound and checks refinement of the "
+                  "operational driver to the declarative framing rule; each file is spelled several ways, encoded in 4 encodings and "
+                  "decoded by a recording DecodeBeatmap implementor and by Beatmap (compared with a reference driver over the same "
+                  "public parsers); non-trivial = distinct files with at least one delivery; bundled + random long files are recorded "
+                  "line by line and validated by Trace_Framing")
+
+
+def check_C07(ctx):
+    thorough = ctx.tier == "thorough"
+    sany(ctx, "Framing")
+    cases = framing_cases(ctx, "SmallKinds", 4 if thorough else 3)
+    cases += framing_cases(ctx, "AllKinds", 3 if thorough else 2)
+    summ = harness(ctx, ["framing", "replay", "--prop", "C07", "--spellings", "3" if thorough else "2"],
+                   stdin_lines=cases, name="framing-c07", timeout=3600)
+    report_mismatches(ctx, summ, "a specialised decoder disagrees with Beatmap / with the projection the spec states")
+    ctx.assumptions += ["record content beyond framing is exercised by the C06/C11/C12/C14 replays, which also run the C07 comparison"]
+    return finish(ctx, "model_checking",
+                  "Framing's invariant C07Projection (each decoder applies exactly the deliveries of the sections it handles) is "
+                  "checked by TLC on every file up to the bound; every file is spelled with records of all sections and decoded by all "
+                  "nine decoder types: shared fields compared with Beatmap and each decoder compared with the fold of its handled "
+                  "deliveries; non-trivial = distinct files with at least one delivery")
